@@ -360,6 +360,18 @@ fn large_numbers(rep: &Report) {
             }
         }
     }
+    // fragments of 65 536, 65 537, 70 000 bytes and 1 MiB (three per message, every arrival order)
+    for size in [65_536usize, 65_537, 70_000, 1 << 20] {
+        for order in [[3u64, 2, 1], [3, 1, 2], [2, 3, 1], [2, 1, 3], [1, 3, 2], [1, 2, 3]] {
+            rep.add("evaluations", 1);
+            let mut a = FragmentAssembler::with_timeout(Duration::from_secs(3600));
+            let mut got: Vec<Option<usize>> = vec![];
+            for id in order { let part = vec![id as u8; size]; got.push(if id == 3 { a.start_fragment(9u64, 3, None, part) } else { a.add_fragment(9u64, id, part) }.map(|b| b.len())); }
+            if got != vec![None, None, Some(3 * size)] || a.pending_count() != 0 {
+                rep.violation("a message of large fragments is not returned exactly once at its last fragment", json!({"fragment_bytes": size, "arrival_order": order, "returned_lengths": format!("{:?}", got), "pending": a.pending_count()}));
+            }
+        }
+    }
     {
         rep.add("evaluations", 1);
         let mut a = FragmentAssembler::with_timeout(Duration::from_millis(60));
